@@ -5,29 +5,6 @@
 import MosVerif.Lemmas.TtlHist
 namespace MosVerif.Ttl
 
-/-- a positive, cacheable Store event of `key` (what `livePositiveBefore` looks for, without the time test) -/
-def PosOn (ev : Ev) (k : Nat) : Bool :=
-  ev.kind == 0 && ev.key == k &&
-  match ev.up with
-  | .reply m => m.rcode == 0 && !m.tc
-  | .err => false
-
-theorem livePositive_posOn (cfgMax : Int) (evs : List Ev) (n key t : Nat)
-    (h : livePositiveBefore cfgMax evs n key t = true) : ∃ ev ∈ evs.take n, PosOn ev key = true := by
-  unfold livePositiveBefore at h
-  rw [List.any_eq_true] at h
-  obtain ⟨ev, hmem, hp⟩ := h
-  refine ⟨ev, hmem, ?_⟩
-  unfold PosOn
-  simp only [Bool.and_eq_true] at hp ⊢
-  refine ⟨hp.1, ?_⟩
-  cases hu : ev.up with
-  | err => rw [hu] at hp; simp at hp
-  | reply m =>
-    rw [hu] at hp
-    simp only [Bool.and_eq_true] at hp ⊢
-    exact hp.2.1
-
 /-- sortedness gives the order of planned times by position -/
 theorem sorted_head_le (a : Ev) (l : List Ev) (h : sortedEvs (a :: l) = true) : ∀ b ∈ l, a.t ≤ b.t := by
   induction l generalizing a with
@@ -67,107 +44,268 @@ theorem sorted_get (l : List Ev) (h : sortedEvs l = true) :
         simp at ha hb
         exact ih (sorted_tail x xs h) i j a b (by omega) ha hb
 
-/-! ### provenance invariant -/
+/-! ### the last positive Store of a key -/
+
+theorem lastPos_snoc (l : List Ev) (x : Ev) (k : Nat) :
+    lastPos (l ++ [x]) k = if posStore x k then some x else lastPos l k := by
+  simp [lastPos, List.foldl_append]
+
+theorem lastPos_fold (l : List Ev) (k : Nat) (ev : Ev) : ∀ acc,
+    l.foldl (fun acc e => if posStore e k then some e else acc) acc = some ev →
+    (ev ∈ l ∧ posStore ev k = true) ∨ acc = some ev := by
+  induction l with
+  | nil => intro acc h; right; simpa using h
+  | cons x xs ih =>
+    intro acc h
+    simp only [List.foldl_cons] at h
+    rcases ih _ h with h' | h'
+    · left; exact ⟨by simp [h'.1], h'.2⟩
+    · by_cases hp : posStore x k = true
+      · simp only [hp, if_true, Option.some.injEq] at h'
+        subst h'; left; exact ⟨by simp, hp⟩
+      · simp only [hp, if_false] at h'
+        right; exact h'
+
+theorem lastPos_some (l : List Ev) (k : Nat) (ev : Ev) (h : lastPos l k = some ev) :
+    ev ∈ l ∧ posStore ev k = true := by
+  rcases lastPos_fold l k ev none h with h' | h'
+  · exact h'
+  · cases h'
+
+theorem take_succ_snoc (evs : List Ev) (n : Nat) (ev : Ev) (hn : evs[n]? = some ev) :
+    evs.take (n + 1) = evs.take n ++ [ev] := by
+  rw [List.take_add_one, hn]; rfl
+
+theorem mem_take_succ (evs : List Ev) (n : Nat) (ev x : Ev) (hn : evs[n]? = some ev)
+    (hx : x ∈ evs.take (n + 1)) : x ∈ evs.take n ∨ x = ev := by
+  rw [take_succ_snoc evs n ev hn] at hx
+  simpa using hx
+
+theorem mem_take_get (evs : List Ev) (n : Nat) (x : Ev) (hx : x ∈ evs.take n) : ∃ i, i < n ∧ evs[i]? = some x := by
+  obtain ⟨i, hi, he⟩ := List.getElem_of_mem hx
+  have hlen := List.length_take (i := n) (l := evs)
+  have hin : i < n := by omega
+  have hil : i < evs.length := by omega
+  refine ⟨i, hin, ?_⟩
+  rw [List.getElem_take] at he
+  rw [List.getElem?_eq_getElem hil, he]
+
+theorem posStore_up (ev : Ev) (k : Nat) (h : posStore ev k = true) :
+    ev.kind = 0 ∧ ev.key = k ∧ ∃ m, ev.up = .reply m ∧ m.rcode = 0 ∧ m.tc = false := by
+  unfold posStore at h
+  simp only [Bool.and_eq_true, beq_iff_eq] at h
+  cases hu : ev.up with
+  | err => rw [hu] at h; simp at h
+  | reply m =>
+    rw [hu] at h
+    simp only [Bool.and_eq_true, beq_iff_eq, Bool.not_eq_true'] at h
+    exact ⟨h.1.1, h.1.2, m, rfl, h.2.1, h.2.2⟩
+
+/-! ### lifetimes of positive answers from below -/
 
 /-- the cache configuration of a harness history -/
 def histCfg (cfgMax : Int) : Cfg := ⟨true, initMaxTtl cfgMax⟩
 
 abbrev histOff : Nat := 500 * msNs
 
-/-- where a node comes from: a storing event among the first `n`, of the same key, at that event's time; an
-    error response was stored only when no positive Store of the key had happened before it -/
-structure Prov (evs : List Ev) (n k : Nat) (e : Entry) : Prop where
+theorem sane_cap (cfgMax : Int) (h1 : -9223372037 < cfgMax) (h2 : cfgMax < 9223372037) :
+    second ≤ initMaxTtl cfgMax := (initMaxTtl_bounds cfgMax h1 h2).1
+
+/-- a positive answer lives at least as long as the property text says (or ten years) -/
+theorem storeTtl_ge_spec_pos (m : Msg) (cfgMax : Int) (h1 : -9223372037 < cfgMax) (h2 : cfgMax < 9223372037)
+    (hpos : m.rcode = 0) :
+    ((Nat.min (specLifetime m cfgMax) tenYears : Nat) : Int) * 1000000000 ≤ storeTtl m (initMaxTtl cfgMax) ∧
+    storeTtl m (initMaxTtl cfgMax) ≤ 315360000 * second := by
+  have hcapv := initMaxTtl_eq cfgMax h1 h2
+  obtain ⟨hc1, hc2, -, -, -, -⟩ := initMaxTtl_bounds cfgMax h1 h2
+  have hrange := storeTtl_pos m (initMaxTtl cfgMax) (by unfold second at hc1; omega)
+  refine ⟨?_, by omega⟩
+  rw [storeTtl_eq]
+  unfold specLifetime specCap tenYears
+  rw [hpos]
+  simp only [show ((0 : Nat) = 3) = False from by simp, show ((0 : Nat) = 2) = False from by simp, if_false, ne_eq,
+    not_true_eq_false]
+  rcases getMinimalTTL_eq m with ⟨hs, hg⟩ | ⟨t, hs, hg2, hg1⟩
+  · rw [hs, hg]
+    simp only [Option.isNone_none, if_true, baseTtl, Bool.false_eq_true, if_false]
+    rw [hcapv]
+    unfold clampTtl defaultMaxCacheTtl maxCacheTtlLimit second
+    simp only [Nat.min_def]
+    repeat' split
+    all_goals omega
+  · rw [hs]
+    have hb : baseTtl 0 (getMinimalTTL m).1.toNat (getMinimalTTL m).2 = (t : Int) * second := by
+      simp [baseTtl, hg2, hg1]
+    rw [hb, hcapv]
+    unfold clampTtl defaultMaxCacheTtl maxCacheTtlLimit second
+    simp only [Option.isNone_some, Bool.false_eq_true, if_false, Nat.min_def]
+    repeat' split
+    all_goals omega
+
+/-- otter's getTTL of a lifetime of at most ten years: no uint32 truncation, at least the lifetime -/
+theorem otterTtlTicks_ge (x : Int) (h0 : 0 < x) (h1 : x ≤ 315360000 * second) :
+    x ≤ (otterTtlTicks x : Int) * 1000000000 ∧ otterTtlTicks x ≤ 315360000 := by
+  unfold otterTtlTicks second u32 at *
+  have hn : (0 : Int) ≤ x + 1000000000 - 1 := by omega
+  rw [Int.tdiv_eq_ediv_of_nonneg hn]
+  have hq : (x + 1000000000 - 1) / 1000000000 ≤ 315360000 := by omega
+  have hq0 : 0 ≤ (x + 1000000000 - 1) / 1000000000 := by omega
+  rw [Int.emod_eq_of_lt hq0 (by omega)]
+  omega
+
+/-- the cache-clock tick at which the node written by a positive Store event expires -/
+def expOf (cfgMax : Int) (ev : Ev) : Nat :=
+  match ev.up with
+  | .reply m => (histClock (ev.t * msNs) + otterTtlTicks (storeTtl m (initMaxTtl cfgMax))) % u32
+  | .err => 0
+
+/-- if the last positive Store is "certainly alive" at `tMs` in the specification's sense, its node has not
+    expired on the cache clock -/
+theorem alive_of_spec (cfgMax : Int) (h1 : -9223372037 < cfgMax) (h2 : cfgMax < 9223372037)
+    (ev : Ev) (m : Msg) (tMs : Nat) (hu : ev.up = .reply m) (hpos : m.rcode = 0) (hshort : ev.t ≤ histLimitMs)
+    (hlive : tMs + tolMs + 1000 < ev.t + Nat.min (specLifetime m cfgMax) tenYears * 1000) :
+    histClock (tMs * msNs) < expOf cfgMax ev := by
+  obtain ⟨hge, hle⟩ := storeTtl_ge_spec_pos m cfgMax h1 h2 hpos
+  have hpos' := (storeTtl_pos m (initMaxTtl cfgMax) (by have := sane_cap cfgMax h1 h2; unfold second at this; omega)).1
+  obtain ⟨hk1, hk2⟩ := otterTtlTicks_ge _ hpos' hle
+  unfold expOf
+  rw [hu]
+  simp only
+  unfold histClock msNs tolMs histLimitMs u32 at *
+  generalize otterTtlTicks (storeTtl m (initMaxTtl cfgMax)) = ticks at *
+  generalize storeTtl m (initMaxTtl cfgMax) = L at *
+  generalize Nat.min (specLifetime m cfgMax) tenYears = S at *
+  have hS : S ≤ ticks := by omega
+  rw [Nat.mod_eq_of_lt (by omega)]
+  omega
+
+/-! ### provenance invariant -/
+
+/-- where a node comes from: a storing event among the first `n`, of the same key, at that event's time, with
+    otter's expiration computed from that time; an error response was stored only when the key's positive entry
+    was not "certainly alive" -/
+structure Prov (cfgMax : Int) (evs : List Ev) (n k : Nat) (e : Entry) : Prop where
   idle : e.id ≤ n
-  src : ∃ ev, evMsg evs e.id = some (ev, e.msg) ∧ ev.key = k ∧ e.stored = ev.t * msNs
-  neg : e.msg.rcode ≠ 0 → ∀ ev ∈ evs.take (e.id - 1), PosOn ev k = false
+  src : ∃ ev, evMsg evs e.id = some (ev, e.msg) ∧ ev.key = k ∧ e.stored = ev.t * msNs ∧
+    (e.msg.rcode ≠ 0 → livePositiveBefore cfgMax evs (e.id - 1) k ev.t = false)
 
 structure HInv (cfgMax : Int) (evs : List Ev) (n : Nat) (mem : Mem) : Prop where
   inv : Inv (histCfg cfgMax) histOff mem
-  prov : ∀ k e, mem k = some e → Prov evs n k e
-  pos : ∀ ev ∈ evs.take n, ∀ k, PosOn ev k = true → mem k ≠ none
-
-theorem mem_take_succ (evs : List Ev) (n : Nat) (ev x : Ev) (hn : evs[n]? = some ev)
-    (hx : x ∈ evs.take (n + 1)) : x ∈ evs.take n ∨ x = ev := by
-  rw [List.take_add_one, hn] at hx
-  simp at hx
-  exact hx
+  prov : ∀ k e, mem k = some e → Prov cfgMax evs n k e
+  /-- the node of the last positive Store of a key is in place, unless an event has already seen it expired -/
+  last : ∀ k ev, lastPos (evs.take n) k = some ev →
+    (∃ e, mem k = some e ∧ e.expTick = expOf cfgMax ev) ∨
+    (∃ x ∈ evs.take n, expOf cfgMax ev ≤ histClock (x.t * msNs))
 
 theorem hinv_same (cfgMax : Int) (evs : List Ev) (n : Nat) (mem : Mem) (ev : Ev) (h : HInv cfgMax evs n mem)
-    (hn : evs[n]? = some ev) (hp : ∀ k, PosOn ev k = false) : HInv cfgMax evs (n + 1) mem := by
+    (hn : evs[n]? = some ev) (hp : ∀ k, posStore ev k = false) : HInv cfgMax evs (n + 1) mem := by
   refine ⟨h.inv, ?_, ?_⟩
   · intro k e he
     have := h.prov k e he
-    exact ⟨Nat.le_succ_of_le this.idle, this.src, this.neg⟩
-  · intro x hx k hk
-    rcases mem_take_succ evs n ev x hn hx with h1 | h1
-    · exact h.pos x h1 k hk
-    · subst h1; rw [hp k] at hk; cases hk
+    exact ⟨Nat.le_succ_of_le this.idle, this.src⟩
+  · intro k ev0 hl
+    rw [take_succ_snoc evs n ev hn, lastPos_snoc, hp k] at hl
+    simp only [Bool.false_eq_true, if_false] at hl
+    rcases h.last k ev0 hl with d1 | ⟨x, hx, hle⟩
+    · left; exact d1
+    · right; exact ⟨x, by rw [take_succ_snoc evs n ev hn]; simp [hx], hle⟩
 
-theorem cacheStore_shape (clock : Nat → Nat) (cfg : Cfg) (mem : Mem) (k : Nat) (m : Msg) (now delay id : Nat)
+theorem cacheStore_shape (clock : Nat → Nat) (cfg : Cfg) (mem : Mem) (k : Nat) (m : Msg) (now id : Nat)
     (hb : cfg.hasBackend = true) :
-    (m.tc = true → cacheStore clock cfg mem k (some m) now delay id = mem) ∧
-    (m.tc = false → m.rcode ≠ 0 → (∃ e0, mem k = some e0) → cacheStore clock cfg mem k (some m) now delay id = mem) ∧
-    (m.tc = false → (m.rcode = 0 ∨ mem k = none) →
-      ∃ e', cacheStore clock cfg mem k (some m) now delay id = mem.set k e' ∧ e'.msg = m ∧ e'.id = id ∧ e'.stored = now) := by
+    (m.tc = true → cacheStore clock cfg mem k (some m) now 0 id = mem) ∧
+    (m.tc = false → m.rcode ≠ 0 → (∃ e0, mem k = some e0 ∧ clock now < e0.expTick) →
+      cacheStore clock cfg mem k (some m) now 0 id = mem) ∧
+    (m.tc = false → (m.rcode = 0 ∨ mem k = none ∨ ∃ e0, mem k = some e0 ∧ e0.expTick ≤ clock now) →
+      ∃ e', cacheStore clock cfg mem k (some m) now 0 id = mem.set k e' ∧ e'.msg = m ∧ e'.id = id ∧ e'.stored = now ∧
+        e'.expTick = (clock now + otterTtlTicks (storeTtl m cfg.maximumTtl)) % u32) := by
+  have hu : ∀ (L : Int), (now : Int) + L - (now : Int) = L := by intro L; omega
   refine ⟨?_, ?_, ?_⟩
   · intro htc; simp [cacheStore, store, hb, htc]
-  · intro htc hneg ⟨e0, he0⟩
-    exact cacheStore_neg_present clock cfg mem k m now delay id e0 hneg he0
+  · intro htc hneg ⟨e0, he0, hl⟩
+    exact cacheStore_neg_present clock cfg mem k m now 0 id e0 hneg he0 (by simpa using hl)
   · intro htc hor
     by_cases hz : m.rcode = 0
     · simp only [cacheStore, store, hb, htc, hz, otterSet]
-      simp only [Bool.not_true, Bool.false_eq_true, if_false, bne_self_eq_false]
-      exact ⟨_, rfl, rfl, rfl, rfl⟩
-    · have hnone : mem k = none := by
-        rcases hor with h | h
-        · exact absurd h hz
-        · exact h
-      have hne : (m.rcode != 0) = true := by simpa using hz
-      simp only [cacheStore, store, hb, htc, otterSet, hnone, hne]
-      simp only [Bool.not_true, Bool.false_eq_true, if_false, if_true]
-      exact ⟨_, rfl, rfl, rfl, rfl⟩
+      simp only [Bool.not_true, Bool.false_eq_true, if_false, bne_self_eq_false, hu, Nat.add_zero]
+      exact ⟨_, rfl, rfl, rfl, rfl, rfl⟩
+    · have hne : (m.rcode != 0) = true := by simpa using hz
+      rcases hor with h | h | ⟨e0, he0, hexp⟩
+      · exact absurd h hz
+      · simp only [cacheStore, store, hb, htc, otterSet, h, hne]
+        simp only [Bool.not_true, Bool.false_eq_true, if_false, if_true, hu, Nat.add_zero]
+        exact ⟨_, rfl, rfl, rfl, rfl, rfl⟩
+      · simp only [cacheStore, store, hb, htc, otterSet, he0, hne]
+        simp only [Bool.not_true, Bool.false_eq_true, if_false, if_true, hu, Nat.add_zero, hexp]
+        exact ⟨_, rfl, rfl, rfl, rfl, rfl⟩
 
-theorem sane_cap (cfgMax : Int) (h1 : -9223372037 < cfgMax) (h2 : cfgMax < 9223372037) :
-    second ≤ initMaxTtl cfgMax := by
-  rw [initMaxTtl_eq cfgMax h1 h2]; unfold defaultMaxCacheTtl second; split <;> omega
+theorem histClock_mono (a b : Nat) (h : a ≤ b) : histClock (a * msNs) ≤ histClock (b * msNs) := by
+  unfold histClock msNs
+  apply Nat.div_le_div_right
+  omega
 
 theorem hinv_store (cfgMax : Int) (h1 : -9223372037 < cfgMax) (h2 : cfgMax < 9223372037)
-    (evs : List Ev) (n : Nat) (mem : Mem) (ev : Ev) (m : Msg) (h : HInv cfgMax evs n mem)
+    (evs : List Ev) (hsorted : sortedEvs evs = true) (hshort : shortEvs evs = true)
+    (n : Nat) (mem : Mem) (ev : Ev) (m : Msg) (h : HInv cfgMax evs n mem)
     (hn : evs[n]? = some ev) (hsrc : evMsg evs (n + 1) = some (ev, m))
-    (hp : ∀ k, PosOn ev k = true → k = ev.key ∧ m.rcode = 0 ∧ m.tc = false) :
+    (hp : ∀ k, posStore ev k = true → ev.up = .reply m)
+    (hq : ∀ e0, mem ev.key = some e0 → m.rcode = 0 → m.tc = false →
+      (posStore ev ev.key = true ∨ e0.expTick ≤ histClock (ev.t * msNs))) :
     HInv cfgMax evs (n + 1)
       (cacheStore histClock (histCfg cfgMax) mem ev.key (some m) (ev.t * msNs) 0 (n + 1)) := by
   have hcap : 0 < (histCfg cfgMax).maximumTtl := by
     have := sane_cap cfgMax h1 h2; unfold histCfg second at *; simp only; omega
   have hinv' := cacheStore_inv histClock histOff (histCfg cfgMax) mem ev.key (some m) (ev.t * msNs) 0 (n + 1)
     clockOK_hist hcap (by decide) h.inv
-  obtain ⟨s1, s2, s3⟩ := cacheStore_shape histClock (histCfg cfgMax) mem ev.key m (ev.t * msNs) 0 (n + 1) rfl
+  obtain ⟨s1, s2, s3⟩ := cacheStore_shape histClock (histCfg cfgMax) mem ev.key m (ev.t * msNs) (n + 1) rfl
+  have hposfacts : ∀ k, posStore ev k = true → k = ev.key ∧ m.rcode = 0 ∧ m.tc = false := by
+    intro k hk
+    obtain ⟨-, hkey, m', hu, hr, ht⟩ := posStore_up ev k hk
+    have := hp k hk
+    rw [hu] at this
+    cases this
+    exact ⟨hkey.symm, hr, ht⟩
   -- the cases in which nothing changes
   have hsame : cacheStore histClock (histCfg cfgMax) mem ev.key (some m) (ev.t * msNs) 0 (n + 1) = mem →
-      (∀ k, PosOn ev k = false) →
+      (∀ k, posStore ev k = false) →
       HInv cfgMax evs (n + 1) (cacheStore histClock (histCfg cfgMax) mem ev.key (some m) (ev.t * msNs) 0 (n + 1)) := by
     intro he hpf; rw [he]; exact hinv_same cfgMax evs n mem ev h hn hpf
   by_cases htc : m.tc = true
   · apply hsame (s1 htc)
     intro k
-    cases hk : PosOn ev k with
+    cases hk : posStore ev k with
     | false => rfl
-    | true => have := (hp k hk).2.2; rw [htc] at this; cases this
+    | true => have := (hposfacts k hk).2.2; rw [htc] at this; cases this
   · have htc' : m.tc = false := by simpa using htc
-    by_cases hkeep : m.rcode ≠ 0 ∧ ∃ e0, mem ev.key = some e0
+    by_cases hkeep : m.rcode ≠ 0 ∧ ∃ e0, mem ev.key = some e0 ∧ histClock (ev.t * msNs) < e0.expTick
     · apply hsame (s2 htc' hkeep.1 hkeep.2)
       intro k
-      cases hk : PosOn ev k with
+      cases hk : posStore ev k with
       | false => rfl
-      | true => exact absurd (hp k hk).2.1 hkeep.1
-    · have hor : m.rcode = 0 ∨ mem ev.key = none := by
+      | true => exact absurd (hposfacts k hk).2.1 hkeep.1
+    · have hor : m.rcode = 0 ∨ mem ev.key = none ∨ ∃ e0, mem ev.key = some e0 ∧ e0.expTick ≤ histClock (ev.t * msNs) := by
         by_cases hz : m.rcode = 0
         · left; exact hz
         · right
           cases hm : mem ev.key with
-          | none => rfl
-          | some e0 => exact absurd ⟨hz, e0, hm⟩ hkeep
-      obtain ⟨e', hset, hmsg, hid, hst⟩ := s3 htc' hor
+          | none => left; rfl
+          | some e0 =>
+            right
+            refine ⟨e0, rfl, ?_⟩
+            by_cases hx : e0.expTick ≤ histClock (ev.t * msNs)
+            · exact hx
+            · exact absurd ⟨hz, e0, hm, by omega⟩ hkeep
+      obtain ⟨e', hset, hmsg, hid, hst, hexp⟩ := s3 htc' hor
+      -- whatever node the key had is expired now, unless this is a positive Store
+      have hold : ∀ e0, mem ev.key = some e0 → posStore ev ev.key = true ∨ e0.expTick ≤ histClock (ev.t * msNs) := by
+        intro e0 he0
+        by_cases hz : m.rcode = 0
+        · exact hq e0 he0 hz htc'
+        · right
+          rcases hor with h' | h' | ⟨e1, he1, hx⟩
+          · exact absurd h' hz
+          · rw [h'] at he0; cases he0
+          · rw [he1] at he0; cases he0; exact hx
+      have hevmem : ev ∈ evs.take (n + 1) := by rw [take_succ_snoc evs n ev hn]; simp
       rw [hset] at hinv' ⊢
       refine ⟨hinv', ?_, ?_⟩
       · intro k e he
@@ -175,32 +313,63 @@ theorem hinv_store (cfgMax : Int) (h1 : -9223372037 < cfgMax) (h2 : cfgMax < 922
         by_cases hk : k = ev.key
         · simp only [hk, if_true, Option.some.injEq] at he
           subst he
-          refine ⟨by omega, ⟨ev, by rw [hid, hmsg]; exact hsrc, hk.symm, hst⟩, ?_⟩
-          intro hneg x hx
-          rw [hid] at hx
-          simp only [Nat.add_sub_cancel] at hx
-          rw [hmsg] at hneg
-          have hnone : mem ev.key = none := by
-            rcases hor with hz | hnone
-            · exact absurd hz hneg
-            · exact hnone
-          cases hpx : PosOn x k with
-          | false => rfl
-          | true =>
-            have := h.pos x hx k hpx
-            rw [hk] at this
-            exact absurd hnone this
+          refine ⟨by omega, ⟨ev, by rw [hid, hmsg]; exact hsrc, hk.symm, hst, ?_⟩⟩
+          intro hneg
+          rw [hid, hmsg] at *
+          simp only [Nat.add_sub_cancel]
+          unfold livePositiveBefore
+          cases hl : lastPos (evs.take n) k with
+          | none => rfl
+          | some ev0 =>
+            simp only
+            obtain ⟨hmem0, hps0⟩ := lastPos_some _ _ _ hl
+            obtain ⟨-, -, m0, hu0, hr0, -⟩ := posStore_up ev0 k hps0
+            rw [hu0]
+            simp only [decide_eq_false_iff_not]
+            intro hlive
+            obtain ⟨i0, hi0, hget0⟩ := mem_take_get evs n ev0 hmem0
+            have hshort0 : ev0.t ≤ histLimitMs := by
+              have := List.all_eq_true.1 hshort ev0 (List.mem_of_getElem? hget0)
+              simpa using this
+            have halive := alive_of_spec cfgMax h1 h2 ev0 m0 ev.t hu0 hr0 hshort0 hlive
+            -- but the node was expired (or absent) when this error response went in
+            have hexpd : expOf cfgMax ev0 ≤ histClock (ev.t * msNs) := by
+              rcases h.last k ev0 hl with ⟨e0, he0, hx0⟩ | ⟨x, hx, hle⟩
+              · rw [hk] at he0
+                rcases hold e0 he0 with hpp | hxx
+                · exact absurd (hposfacts _ hpp).2.1 hneg
+                · omega
+              · obtain ⟨ix, hix, hgetx⟩ := mem_take_get evs n x hx
+                have := sorted_get evs hsorted ix n x ev (by omega) hgetx hn
+                exact Nat.le_trans hle (histClock_mono _ _ this)
+            omega
         · simp only [hk, if_false] at he
           have := h.prov k e he
-          exact ⟨Nat.le_succ_of_le this.idle, this.src, this.neg⟩
-      · intro x hx k hk
-        unfold Mem.set
-        by_cases hkk : k = ev.key
-        · simp [hkk]
-        · simp only [hkk, if_false]
-          rcases mem_take_succ evs n ev x hn hx with hx1 | hx1
-          · exact h.pos x hx1 k hk
-          · subst hx1; exact absurd (hp k hk).1 hkk
+          exact ⟨Nat.le_succ_of_le this.idle, this.src⟩
+      · intro k ev0 hl
+        rw [take_succ_snoc evs n ev hn, lastPos_snoc] at hl
+        by_cases hps : posStore ev k = true
+        · simp only [hps, if_true, Option.some.injEq] at hl
+          subst hl
+          obtain ⟨hkk, -, -⟩ := hposfacts k hps
+          left
+          refine ⟨e', by simp [Mem.set, hkk], ?_⟩
+          rw [hexp]
+          unfold expOf
+          rw [hp k hps]
+          rfl
+        · simp only [hps, if_false] at hl
+          rcases h.last k ev0 hl with ⟨e0, he0, hx0⟩ | ⟨x, hx, hle⟩
+          · by_cases hkk : k = ev.key
+            · right
+              refine ⟨ev, hevmem, ?_⟩
+              rw [hkk] at he0
+              rcases hold e0 he0 with hpp | hxx
+              · rw [← hkk] at hpp; exact absurd hpp hps
+              · omega
+            · left
+              exact ⟨e0, by simp [Mem.set, hkk, he0], hx0⟩
+          · right; exact ⟨x, by rw [take_succ_snoc evs n ev hn]; simp [hx], hle⟩
 
 /-! ### the checks of `specHit` on a hit of the model -/
 
@@ -302,8 +471,8 @@ theorem specServedAnyRRs_sub (d : UInt32) (el : Nat) (hel : el ≤ d.toNat) (l s
   rw [hr.2]; simp only [Nat.max_def]; split <;> split <;> omega
 
 theorem specServedAny_sub (m : Msg) (d : UInt32) (el : Nat) (hel : el ≤ d.toNat) :
-    specServedAny el m (removeEDNS0 (subtractTTL m d)) = true := by
-  unfold specServedAny removeEDNS0 subtractTTL
+    specServedAny el m (popEDNS0 (subtractTTL m d)) = true := by
+  unfold specServedAny popEDNS0 subtractTTL
   simp only [Bool.and_eq_true]
   refine ⟨⟨specServedAnyRRs_sub d el hel _ _ (fun x hx => hx), specServedAnyRRs_sub d el hel _ _ (fun x hx => hx)⟩,
     specServedAnyRRs_sub d el hel _ _ (fun x hx => mem_popOPT _ x hx)⟩
@@ -313,10 +482,10 @@ theorem specHit_ok (cfgMax : Int) (h1 : -9223372037 < cfgMax) (h2 : cfgMax < 922
     (ev : Ev) (hn : evs[n]? = some ev) (served : Msg) (e : Entry)
     (hg : cacheGet histClock mem ev.key (ev.t * msNs) = some (served, e)) :
     specHit cfgMax evs (n + 1) ev.key ev.t e.id (some (e.expire - e.stored)) served = true ∧
-    specHit cfgMax evs (n + 1) ev.key ev.t e.id none (removeEDNS0 served) = true := by
+    specHit cfgMax evs (n + 1) ev.key ev.t e.id none (popEDNS0 served) = true := by
   obtain ⟨hm, hl, hs⟩ := cacheGet_some _ _ _ _ _ _ hg
   have hok := h.inv ev.key e hm
-  obtain ⟨hidle, ⟨ev0, hsrc, hkey, hst⟩, hneg⟩ := h.prov ev.key e hm
+  obtain ⟨hidle, ⟨ev0, hsrc, hkey, hst, hneg⟩⟩ := h.prov ev.key e hm
   obtain ⟨hj0, hev0⟩ := evMsg_some _ _ _ _ hsrc
   have hcap := sane_cap cfgMax h1 h2
   -- facts
@@ -357,12 +526,7 @@ theorem specHit_ok (cfgMax : Int) (h1 : -9223372037 < cfgMax) (h2 : cfgMax < 922
   have f8 : (e.msg.rcode == 0 || !livePositiveBefore cfgMax evs (e.id - 1) ev.key ev0.t) = true := by
     by_cases hz : e.msg.rcode = 0
     · simp [hz]
-    · have hnp := hneg hz
-      cases hlp : livePositiveBefore cfgMax evs (e.id - 1) ev.key ev0.t with
-      | false => simp
-      | true =>
-        obtain ⟨x, hx, hpx⟩ := livePositive_posOn _ _ _ _ _ hlp
-        rw [hnp x hx] at hpx; cases hpx
+    · rw [hneg hz]; simp
   have common : ∀ (life : Option Nat) (sv : Msg),
       (match life with | none => true | some l => specLifeOK e.msg cfgMax l) = true →
       (if life.isSome then specServed ((ev.t - ev0.t - tolMs) / 1000) e.msg sv
@@ -377,31 +541,29 @@ theorem specHit_ok (cfgMax : Int) (h1 : -9223372037 < cfgMax) (h2 : cfgMax < 922
   · apply common (some (e.expire - e.stored)) served f5
     simp only [Option.isSome_some, if_true]
     rw [hs]; exact specServed_sub _ _ _ hel
-  · apply common none (removeEDNS0 served) rfl
+  · apply common none (popEDNS0 served) rfl
     simp only [Option.isSome_none, Bool.false_eq_true, if_false]
     rw [hs]; exact specServedAny_sub _ _ _ hel
 
 /-! ### one event, then a whole history -/
 
-theorem posOn_kind (ev : Ev) (k : Nat) (h : PosOn ev k = true) : ev.kind = 0 := by
-  unfold PosOn at h
-  simp only [Bool.and_eq_true, beq_iff_eq] at h
-  exact h.1.1
+theorem posOn_kind (ev : Ev) (k : Nat) (h : posStore ev k = true) : ev.kind = 0 := (posStore_up ev k h).1
 
 theorem cacheStore_none (clock : Nat → Nat) (cfg : Cfg) (mem : Mem) (k now delay id : Nat) :
     cacheStore clock cfg mem k none now delay id = mem := by
   cases hb : cfg.hasBackend <;> simp [cacheStore, store, hb]
 
 theorem step_spec (cfgMax : Int) (h1 : -9223372037 < cfgMax) (h2 : cfgMax < 9223372037)
-    (evs : List Ev) (hsorted : sortedEvs evs = true) (n : Nat) (mem : Mem) (h : HInv cfgMax evs n mem)
+    (evs : List Ev) (hsorted : sortedEvs evs = true) (hshort : shortEvs evs = true)
+    (n : Nat) (mem : Mem) (h : HInv cfgMax evs n mem)
     (ev : Ev) (hn : evs[n]? = some ev) (hkind : ev.kind ≤ 3) :
     HInv cfgMax evs (n + 1) (step histClock (histCfg cfgMax) mem (n + 1) ev.toStep).1 ∧
     specObs cfgMax evs (n + 1) ev (step histClock (histCfg cfgMax) mem (n + 1) ev.toStep).2 = true := by
-  have hsame : ∀ (hp : ∀ k, PosOn ev k = false), HInv cfgMax evs (n + 1) mem :=
+  have hsame : ∀ (hp : ∀ k, posStore ev k = false), HInv cfgMax evs (n + 1) mem :=
     fun hp => hinv_same cfgMax evs n mem ev h hn hp
-  have hnotpos : ev.kind ≠ 0 → ∀ k, PosOn ev k = false := by
+  have hnotpos : ev.kind ≠ 0 → ∀ k, posStore ev k = false := by
     intro hk k
-    cases hp : PosOn ev k with
+    cases hp : posStore ev k with
     | false => rfl
     | true => exact absurd (posOn_kind ev k hp) hk
   have hk4 : ev.kind = 0 ∨ ev.kind = 1 ∨ ev.kind = 2 ∨ ev.kind = 3 := by omega
@@ -413,19 +575,18 @@ theorem step_spec (cfgMax : Int) (h1 : -9223372037 < cfgMax) (h2 : cfgMax < 9223
       rw [hstep]
       simp only [step, cacheStore_none]
       refine ⟨hsame ?_, by simp [specObs, hk]⟩
-      intro k; simp [PosOn, hup]
+      intro k; simp [posStore, hup]
     | reply m =>
       have hstep : ev.toStep = .store ev.key (some m) (ev.t * msNs) 0 := by simp [Ev.toStep, hk, hup]
       rw [hstep]
       simp only [step]
       refine ⟨?_, by simp [specObs, hk]⟩
-      apply hinv_store cfgMax h1 h2 evs n mem ev m h hn
+      apply hinv_store cfgMax h1 h2 evs hsorted hshort n mem ev m h hn
       · simp [evMsg, hn, hk, hup]
-      · intro k hp
-        unfold PosOn at hp
-        rw [hup] at hp
-        simp only [Bool.and_eq_true, beq_iff_eq, Bool.not_eq_true'] at hp
-        exact ⟨hp.1.2.symm, hp.2.1, hp.2.2⟩
+      · intro k _; exact hup
+      · intro e0 _ hz htc
+        left
+        simp [posStore, hk, hup, hz, htc]
   · -- n: Store(nil)
     have hstep : ev.toStep = .store ev.key none (ev.t * msNs) 0 := by simp [Ev.toStep, hk]
     rw [hstep]
@@ -462,13 +623,22 @@ theorem step_spec (cfgMax : Int) (h1 : -9223372037 < cfgMax) (h2 : cfgMax < 9223
       | reply m =>
         simp only [step, handleQuery, hg]
         refine ⟨?_, by simp [specObs, hk]⟩
-        apply hinv_store cfgMax h1 h2 evs n mem ev (removeEDNS0 m) h hn
+        apply hinv_store cfgMax h1 h2 evs hsorted hshort n mem ev (removeEDNS0 m) h hn
         · simp [evMsg, hn, hk, hup]
         · intro k hp
           exact absurd (posOn_kind ev k hp) (by omega)
+        · intro e0 he0 _ _
+          right
+          -- the lookup missed although the key has a node: the node is expired
+          unfold cacheGet otterGet at hg
+          rw [he0] at hg
+          by_cases hx : e0.expTick ≤ histClock (ev.t * msNs)
+          · exact hx
+          · simp [hx] at hg
 
 theorem run_spec (cfgMax : Int) (h1 : -9223372037 < cfgMax) (h2 : cfgMax < 9223372037)
-    (evs : List Ev) (hsorted : sortedEvs evs = true) (hkinds : ∀ e ∈ evs, e.kind ≤ 3) (suf : List Ev) :
+    (evs : List Ev) (hsorted : sortedEvs evs = true) (hshort : shortEvs evs = true)
+    (hkinds : ∀ e ∈ evs, e.kind ≤ 3) (suf : List Ev) :
     ∀ (n : Nat) (mem : Mem), HInv cfgMax evs n mem → (∀ i, suf[i]? = evs[n + i]?) →
       specHistFrom cfgMax evs (n + 1) suf
         (runFrom histClock (histCfg cfgMax) mem (n + 1) (suf.map Ev.toStep)).2 = true := by
@@ -478,7 +648,7 @@ theorem run_spec (cfgMax : Int) (h1 : -9223372037 < cfgMax) (h2 : cfgMax < 92233
     intro n mem h hal
     have hn : evs[n]? = some ev := by have := hal 0; simpa using this.symm
     have hkind := hkinds ev (List.mem_of_getElem? hn)
-    obtain ⟨hinv', hobs⟩ := step_spec cfgMax h1 h2 evs hsorted n mem h ev hn hkind
+    obtain ⟨hinv', hobs⟩ := step_spec cfgMax h1 h2 evs hsorted hshort n mem h ev hn hkind
     have hrest := ih (n + 1) _ hinv' (by
       intro i
       have := hal (i + 1)
@@ -490,6 +660,6 @@ theorem run_spec (cfgMax : Int) (h1 : -9223372037 < cfgMax) (h2 : cfgMax < 92233
 theorem hinv_start (cfgMax : Int) (evs : List Ev) : HInv cfgMax evs 0 Mem.empty := by
   refine ⟨inv_empty _ _, ?_, ?_⟩
   · intro k e he; simp [Mem.empty] at he
-  · intro ev hev; simp at hev
+  · intro k ev hl; simp [lastPos] at hl
 
 end MosVerif.Ttl
